@@ -250,7 +250,7 @@ def shard(tier, seed, n, which):
 
 def run(tier, seed):
     t0 = time.time()
-    total = 2600 if tier == 'quick' else 80000
+    total = 6400 if tier == 'quick' else 80000
     seeds = common.shard_seeds(seed, common.NPROC)
     jobs = [dict(tier=tier, seed=0, n=0, which='regression')]
     for i, s in enumerate(seeds):
